@@ -44,7 +44,8 @@ def main():
         shutil.rmtree(scratch, ignore_errors=True)
     json.dump({'checks': res, 'caught': any(v['rc'] != 0 for v in res.values())}, open(os.path.join(d, 'result.json'), 'w'), indent=1)
     # the harness binaries were rebuilt against the mutated tree: rebuild them on the clean tree
-    sh([os.path.join(VERIF, 'setup.sh')], cwd=VERIF)
+    if not os.environ.get('SEEDED_NO_SETUP'):
+        sh([os.path.join(VERIF, 'setup.sh')], cwd=VERIF)
     return 0
 
 if __name__ == '__main__':
